@@ -335,6 +335,10 @@ func getReturnTypeName(expr ast.Expr) (string, bool) {
 		typeName = exprToString(t.X)
 		isPtr = true
 	case *ast.ArrayType:
+		if t.Len != nil {
+			//every error path returns nil in the result position: an array has no nil
+			logx.Fatalf("unsupported array return type: %s (use a slice or a pointer)", exprToString(t))
+		}
 		typeName = exprToString(t)
 	case *ast.MapType:
 		typeName = exprToString(t)
